@@ -22,6 +22,7 @@ impl State {
 //@item broker/src/serial_map.rs struct SerialMap
 impl<T> SerialMap<T> {
     //@include _shared/serial_map_specs.rs
+    //@fn-from broker_serial_map broker/src/serial_map.rs SerialMap::new
     //@fn-from broker_serial_map broker/src/serial_map.rs SerialMap::remove
     //@fn-from broker_serial_map broker/src/serial_map.rs SerialMap::get_mut
     //@fn-from broker_serial_map broker/src/serial_map.rs SerialMap::entry
